@@ -550,3 +550,10 @@ for _p, _r in (("C10", "R-C10-viewtrain"), ("C19", "R-C19-viewtrain")):
     B(_p, BASE, "            partially_in_view = in_view.any(axis=1) & ~completely_in_view", "            partially_in_view = in_view.any(axis=1)", _r)
     B(_p, BASE, "            índices_set_by_trainables_in_view.append(inds[completely_in_view])", "            índices_set_by_trainables_in_view.append(inds[partially_in_view])", _r)
     P(_p, BASE, "            partially_in_view = in_view.any(axis=1) & ~completely_in_view", "            partially_in_view = ~completely_in_view & in_view.any(axis=1)")
+# delete_channel keeps what the surviving channels need: polarity of the row and column selections
+B("C19", BASE, "                self.base.nodes.loc[rows[~in_use], col] = float(\"nan\")", "                self.base.nodes.loc[rows[in_use], col] = float(\"nan\")", "R-C19-undo")
+B("C19", BASE, "                unshared_cols = [col for col in channel_cols if not users[col]]", "                unshared_cols = [col for col in channel_cols if users[col]]", "R-C19-undo")
+B("C19", BASE, "                in_use = self.base.nodes.loc[rows, users[col]].any(axis=1).to_numpy()", "                in_use = self.base.nodes.loc[rows, users[col]].all(axis=1).to_numpy()", "R-C19-undo")
+P("C19", BASE, "                unshared_cols = [col for col in channel_cols if not users[col]]", "                unshared_cols = [col for col in channel_cols if len(users[col]) == 0]")
+P("C19", BASE, "                in_use = self.base.nodes.loc[rows, users[col]].any(axis=1).to_numpy()\n                self.base.nodes.loc[rows[~in_use], col] = float(\"nan\")", "                unused = ~self.base.nodes.loc[rows, users[col]].any(axis=1).to_numpy()\n                self.base.nodes.loc[rows[unused], col] = float(\"nan\")")
+B("C19", BASE, "        self.base.nodes.loc[self._nodes_in_view, name] = True", "        self.base.nodes[name] = True", "R-C19-confine")
